@@ -7,6 +7,16 @@ Id(v) == <<TLCFP(v), TLCFP(<<"salt", v>>)>>
 CurVars == <<prog, chan, lk, state, reducers, mws, subs, pool, tasks, pc, loc, sig, m, h, lbl>>
 NxtVars == <<prog', chan', lk', state', reducers', mws', subs', pool', tasks', pc', loc', sig', m', h', lbl'>>
 
-EmitEdge == PrintT(<<"E", Id(CurVars), Id(NxtVars), (IF AllDone' THEN 1 ELSE 0) + (IF ClientsDone' THEN 2 ELSE 0), ToJson(lbl')>>)
+(* threads of the target state that are parked in front of an operation that cannot complete now  *)
+(* (full queue, held lock, join of something still running): used for the blocked probes          *)
+BlockedNext == {t \in Threads : pc'[t] \notin {"none", "exited", "joined", "recv", "ch.wait"}
+                                /\ ~(t \in Clients /\ pc'[t] = "idle" /\ loc'[t].ip > Len(prog'[t]))
+                                /\ ~CanLeave(t)'}
+BlockedInfo == [t \in BlockedNext |->
+                  IF pc'[t] = "idle" THEN "op:" \o prog'[t][loc'[t].ip].op \o
+                                                (IF prog'[t][loc'[t].ip].op = "dispatch" THEN "/" \o prog'[t][loc'[t].ip].via ELSE "")
+                  ELSE IF pc'[t] = "send" THEN "send:" \o loc'[t].ch ELSE pc'[t]]
+EmitEdge == PrintT(<<"E", Id(CurVars), Id(NxtVars), (IF AllDone' THEN 1 ELSE 0) + (IF ClientsDone' THEN 2 ELSE 0),
+                     ToJson(lbl'), ToJson(BlockedInfo)>>)
 EmitInit == (lbl.ev = "init") => PrintT(<<"I", Id(CurVars), ToJson(prog)>>)
 =============================================================================
